@@ -779,7 +779,13 @@ func (cg *caseGen) stateShape(cx ectx) (*pvcase.Expr, bool) {
 		}
 		return seqOf(k...), true
 	}
-	switch cg.r.IntN(8) {
+	switch cg.r.IntN(9) {
+	case 8: // ( (#{} x)? #{} y ) / #{} z : an inner restore (the option's body fails), then a second state block with NO snapshot in
+		// between, then the failure of the enclosing alternative - what the alternative after it reads must be the store from
+		// before the first (round 19: a lazily unshared Cloner value not re-armed after the inner restore)
+		ch := cg.newChoice()
+		ch.Kids = []*pvcase.Expr{seqOf(un(pvcase.KOpt, seqOf(stc(), xc())), stc(), y), seqOf(stc(), z)}
+		return ch, true
 	case 0: // ( #{} x y / #{} x z )
 		ch := cg.newChoice()
 		ch.Kids = []*pvcase.Expr{seqOf(stc(), xc(), y), seqOf(stc(), xc(), z)}
